@@ -313,6 +313,56 @@ func c01(c *core.Ctx, r *core.Report) {
 				r.Violation("IterationDurations."+f+"#drain", "-", "no atomic Swap drains hot accumulating field %s", f)
 			}
 		}
+		// the merge into the lifetime totals: an Add of an accumulating field fed from a Load of the same-named field
+		// of another accumulator runs on every path of its function, or is skipped only when that other
+		// accumulator's count is tested to be zero (nothing was drained)
+		merges := 0
+		for _, s := range sites {
+			if s.Op != "Add" || !accum[s.Field.Name()] {
+				continue
+			}
+			src, ok := an.Strip(s.Call.Common().Args[1]).(*ssa.Call)
+			if !ok {
+				continue
+			}
+			st := an.Callee(src)
+			sf := an.FieldOfAddr(src.Call.Args[0])
+			if st == nil || st.Name() != "Load" || sf == nil || sf.Name() != s.Field.Name() {
+				continue
+			}
+			merges++
+			key := "IterationDurations." + s.Field.Name() + "@" + core.FuncName(s.Fn) + "#merge-unconditional"
+			tot, okT := an.Total(an.PathCount(s.Fn, func(x ssa.Instruction) an.Interval {
+				if x == ssa.Instruction(s.Call) {
+					return an.Interval{Lo: 1, Hi: 1}
+				}
+				return an.Interval{}
+			}), false)
+			if okT && tot.Lo == 1 && tot.Hi == 1 {
+				r.OK(key, an.Pos(c, s.Call), "merged on every path")
+				continue
+			}
+			onlyCount := true
+			for _, g := range an.GuardsOf(s.Call.Block()) {
+				okG := false
+				if bo, isB := an.Strip(g.If.Cond).(*ssa.BinOp); isB {
+					for _, side := range []ssa.Value{bo.X, bo.Y} {
+						if ld, isC := an.Strip(side).(*ssa.Call); isC {
+							if lt := an.Callee(ld); lt != nil && lt.Name() == "Load" {
+								if f := an.FieldOfAddr(ld.Call.Args[0]); f != nil && f.Name() == "count" {
+									okG = true
+								}
+							}
+						}
+					}
+				}
+				if !okG {
+					onlyCount = false
+				}
+			}
+			r.Check(onlyCount, key, an.Pos(c, s.Call), "skipped only when the drained count is zero", "the drained "+s.Field.Name()+" is merged into the lifetime totals only on some paths (under a condition other than an empty count): iterations that were drained are lost from the totals")
+		}
+		r.Floor("lifetime merges", merges, 2)
 	})
 
 	rule(r, "C01.R5", "the drain (non-reentrant: two concurrent drains could interleave their merges) is reachable only through call sites executing with one mutex held in write mode", func() {
